@@ -75,6 +75,11 @@ impl LockFile {
                     // Process is not running, remove the lock
                     fs::remove_file(&lock_path).context("Failed to remove orphaned lock file")?;
                 }
+            } else if content.trim().is_empty() {
+                // The lock file is created first and written afterwards: a process that died in
+                // between (or whose write failed) leaves an empty file. It names no owner, so it
+                // can never be recognised as stale or orphaned; treat it as abandoned.
+                fs::remove_file(&lock_path).context("Failed to remove empty lock file")?;
             }
         }
 
@@ -99,8 +104,12 @@ impl LockFile {
             .open(&lock_path)
             .context("Failed to create lock file")?;
 
-        file.write_all(lock_content.as_bytes())
-            .context("Failed to write lock file")?;
+        if let Err(e) = file.write_all(lock_content.as_bytes()) {
+            // Do not leave an empty lock file behind
+            drop(file);
+            let _ = fs::remove_file(&lock_path);
+            return Err(e).context("Failed to write lock file");
+        }
 
         if let Ok(mut held) = HELD_LOCKS.lock() {
             held.push(lock_path.clone());
